@@ -52,13 +52,17 @@ type UOp struct {
 }
 
 type C04UCase struct {
-	Skip   bool  `json:"skip,omitempty"`
+	Skip     bool  `json:"skip,omitempty"`
+	Delay    bool  `json:"delay,omitempty"`
+	Suppress bool  `json:"suppress,omitempty"`
 	NWatch int   `json:"n_watch"`
 	Ops    []UOp `json:"ops"`
 }
 
 func genC04U(t *rapid.T) C04UCase {
 	c := C04UCase{Skip: rapid.IntRange(0, 3).Draw(t, "skip") == 0, NWatch: rapid.IntRange(1, 2).Draw(t, "n_watch")}
+	c.Delay = rapid.IntRange(0, 2).Draw(t, "delay") == 0
+	c.Suppress = rapid.Bool().Draw(t, "suppress")
 	n := rapid.IntRange(1, 12).Draw(t, "ops")
 	for i := 0; i < n; i++ {
 		op := UOp{Src: rapid.IntRange(0, c.NWatch-1).Draw(t, "src"), N: i + 1, Block: rapid.Bool().Draw(t, "block")}
@@ -136,7 +140,7 @@ func runC04U(c C04UCase) (verdict vrt.Verdict) {
 		var mu sync.Mutex
 		var errs []errRec
 		var news []*UCfg
-		params := dials.Params[UCfg]{SkipInitialVerification: c.Skip,
+		params := dials.Params[UCfg]{SkipInitialVerification: c.Skip, DelayInitialVerification: c.Delay, CallGlobalCallbacksAfterVerificationEnabled: c.Suppress,
 			OnWatchedError: func(_ context.Context, err error, o, n *UCfg) {
 				mu.Lock()
 				errs = append(errs, errRec{err, o, n})
@@ -221,6 +225,9 @@ func runC04U(c C04UCase) (verdict vrt.Verdict) {
 			uVerifyMu.Lock()
 			verifs := append([]*UCfg{}, uVerifyLog[vlBefore:]...)
 			uVerifyMu.Unlock()
+			suppressed := c.Delay && c.Suppress
+			// under delayed verification nothing is verified: invalid values are installed
+			rejectInvalid := limit < 0 && !c.Delay
 			switch {
 			case anyI:
 				unstackSeen++
@@ -240,7 +247,7 @@ func runC04U(c C04UCase) (verdict vrt.Verdict) {
 					fail("%s: ReportNewValue returned %v", step, rerr)
 					return
 				}
-				if len(newErrs) != 1 || newErrs[0].err == nil || newErrs[0].old != curView || newErrs[0].new != nil {
+				if !suppressed && (len(newErrs) != 1 || newErrs[0].err == nil || newErrs[0].old != curView || newErrs[0].new != nil) {
 					fail("%s: OnWatchedError must be called once with (stacking error, current config, nil); got %d call(s) %+v", step, len(newErrs), newErrs)
 					return
 				}
@@ -248,7 +255,7 @@ func runC04U(c C04UCase) (verdict vrt.Verdict) {
 					fail("%s: OnNewConfig was called for an update that cannot be stacked", step)
 					return
 				}
-			case limit < 0:
+			case rejectInvalid:
 				invalidSeen++
 				if v != curView || serialOf(tok) != curSerial {
 					fail("%s: an update that does not verify changed the view or the serial", step)
@@ -284,11 +291,21 @@ func runC04U(c C04UCase) (verdict vrt.Verdict) {
 					fail("%s: installed config is %+v, want N=%d Limit=%d I=default", step, *v, nval, limit)
 					return
 				}
-				if len(verifs) != 1 || verifs[0] != v {
+				if c.Delay {
+					if len(verifs) != 0 {
+						fail("%s: Verify was called although verification is delayed", step)
+						return
+					}
+				} else if len(verifs) != 1 || verifs[0] != v {
 					fail("%s: the installed config is not the one that was verified", step)
 					return
 				}
-				if len(newErrs) != 0 || len(newNews) != 1 || newNews[0] != v {
+				if suppressed {
+					if len(newNews) != 0 {
+						fail("%s: OnNewConfig was called although global callbacks are suppressed", step)
+						return
+					}
+				} else if len(newErrs) != 0 || len(newNews) != 1 || newNews[0] != v {
 					fail("%s: expected exactly one OnNewConfig(new=installed) and no OnWatchedError; got %d / %d", step, len(newNews), len(newErrs))
 					return
 				}
@@ -300,6 +317,18 @@ func runC04U(c C04UCase) (verdict vrt.Verdict) {
 		return vrt.KeyedViolationf("unstackable", "%s", msg)
 	}
 	return vrt.OK(unstackSeen >= 1 && validSeen >= 1, fmt.Sprintf("unstackable=%d", min(unstackSeen, 3)), fmt.Sprintf("invalid=%d", min(invalidSeen, 3)), fmt.Sprintf("valid=%d", min(validSeen, 3)))
+}
+
+func TestC07Unstackable(t *testing.T) {
+	curT = t
+	vrt.Check(t, vrt.Prop[C04UCase]{
+		ID: "C07", Name: "unstackable",
+		Rule: "the histories of C04/unstackable (values that cannot be stacked, invalid and valid values, blocking and not, under Skip / Delay / suppress options); " +
+			"oracle (C07's clauses): a blocking report of a value whose stacking or verification fails returns that error (it is answered on every path: a missing answer leaves the bubble deadlocked) and the view is unchanged; nil => the view holds the value; " +
+			"non-trivial = at least one unstackable and one installed update; distinct = distinct case JSON",
+		Assumptions: []string{"see C04/unstackable"},
+		Gen:         genC04U, Run: runC04U,
+	})
 }
 
 func TestC04Unstackable(t *testing.T) {
